@@ -2,6 +2,7 @@ import decimal
 import math
 import io
 import json
+import sys
 import re
 import collections
 from collections import deque
@@ -445,7 +446,17 @@ class TypeTransformer:
             if data.as_tuple().exponent:
                 raise TypeError
 
-        return t(data)
+        return t(self._int_from_decimal(data))
+
+    @staticmethod
+    def _int_from_decimal(data: Decimal) -> int:
+        # int(Decimal('1e999999')) builds a million-digit integer out of an eight-character input: the work is
+        # exponential in the size of the input.  Refuse what CPython itself refuses to read or print as an int
+        # (sys.get_int_max_str_digits(), 4300 digits by default; 0 = no limit)
+        limit = getattr(sys, "get_int_max_str_digits", lambda: 0)()
+        if limit and data.is_finite() and data.adjusted() >= limit:
+            raise ValueError(f"number of {data.adjusted() + 1} digits exceeds the limit ({limit}) for integer conversion")
+        return int(data)
 
     @registry.register(Decimal)
     def to_decimal(self, data, t: Type[Decimal] = Decimal) -> Decimal:
@@ -660,7 +671,7 @@ class TypeTransformer:
 
         if not self.no_explicit_cast:
             if not self.no_data_loss and isinstance(data, (float, Decimal)):
-                data = int(data)
+                data = self._int_from_decimal(data) if isinstance(data, Decimal) else int(data)
 
             if isinstance(data, int):
                 return t(int=data)
